@@ -155,10 +155,22 @@ def c20_2(ctx):
     ok = len(joins) == 1
     detail = '; '.join(unparse(j) for j in joins)
     if ok:
-        a = deref(ctx, h, joins[0].args[0], joins[0])
-        ok = isinstance(a, (ast.ListComp, ast.GeneratorExp)) and isinstance(a.elt, ast.Call) and unparse(a.elt.func) == 're.escape' \
-            and unparse(a.elt.args[0]) == unparse(a.generators[0].target) and not a.generators[0].ifs
-        src = a.generators[0].iter if ok else None
+        from engine.helpers import seq_view
+        raw = joins[0].args[0]
+        a = deref(ctx, h, raw, joins[0])
+        elt = tgt = src = None
+        conds = []
+        if isinstance(a, (ast.ListComp, ast.GeneratorExp)) and len(a.generators) == 1:
+            elt, tgt, src, conds = a.elt, a.generators[0].target, a.generators[0].iter, a.generators[0].ifs
+        elif isinstance(a, ast.Call) and unparse(a.func) in ('map', 'list') and unparse(a.func) == 'map' and len(a.args) == 2 and unparse(a.args[0]) == 're.escape':
+            x = ast.Name(id='x', ctx=ast.Load())
+            elt, tgt, src = ast.Call(func=a.args[0], args=[x], keywords=[]), x, a.args[1]
+        elif isinstance(raw, ast.Name):
+            sv = seq_view(ctx, h, raw.id)
+            if sv is not None:
+                elt, tgt, src, conds = sv.elt, sv.target, sv.iter, sv.conds
+        ok = elt is not None and isinstance(elt, ast.Call) and unparse(elt.func) == 're.escape' and len(elt.args) == 1 \
+            and unparse(elt.args[0]) == unparse(tgt) and not conds
         if ok:
             sd = deref(ctx, h, src, joins[0])
             ok = unparse(sd) == lst or (isinstance(sd, ast.Call) and unparse(sd.func) == 'sorted' and unparse(sd.args[0]) == lst)
@@ -169,13 +181,18 @@ def c20_2(ctx):
     ok = len(rr) == 1 and isinstance(rr[0].value, ast.Call) and unparse(rr[0].value.func) == f'{h.call_params[0].arg}.replace' and unparse(rr[0].value.args[0]) == h.call_params[1].arg
     ctx.check(ok, 'escape:helper-substitutes-token', h.site(), 'the helper replaces the given token in the given template text', '; '.join(unparse(r) for r in rr))
     from engine.helpers import fmt_view
-    rs = [n for n in ast.walk(h.node) if isinstance(n, ast.Assign) and isinstance(n.value, (ast.BinOp, ast.JoinedStr)) and any(x is joins[0] for x in ast.walk(n.value))] if joins else []
-    ok = len(rs) == 1
+    # the text that replaces the token: \b <the joined alternation> \b
+    rs = []
+    ok = len(rr) == 1 and isinstance(rr[0].value, ast.Call) and len(rr[0].value.args) == 2 and len(joins) == 1
     if ok:
-        fv = fmt_view(rs[0].value) or []
-        ok = len(fv) == 3 and fv[0] == ('lit', '\\b') and fv[2] == ('lit', '\\b') and fv[1][0] == 'field' and fv[1][2] == '' \
-            and isinstance(fv[1][1], ast.Call) and unparse(fv[1][1].func) == "'\\\\b|\\\\b'.join"
-    ctx.check(ok, 'escape:word-bounded-alternation', h.site(), 'the names become a \\b-bounded alternation (whole identifiers only)', '; '.join(unparse(r.value) for r in rs))
+        rep = deref(ctx, h, rr[0].value.args[1], rr[0])
+        rs = [rep]
+        fv = fmt_view(rep) or []
+        ok = len(fv) == 3 and fv[0] == ('lit', '\\b') and fv[2] == ('lit', '\\b') and fv[1][0] == 'field' and fv[1][2] == ''
+        if ok:
+            mid = deref(ctx, h, fv[1][1], rr[0])
+            ok = mid is joins[0] and unparse(mid.func) == "'\\\\b|\\\\b'.join"
+    ctx.check(ok, 'escape:word-bounded-alternation', h.site(), 'the names become a \\b-bounded alternation (whole identifiers only)', '; '.join(unparse(r) for r in rs))
     for q in (VS, SB):
         fn = ctx.repo.func(q)
         for n in ast.walk(fn.node):
